@@ -104,6 +104,8 @@ def compare_doc(s, xsd, doc, nchunks, st, label, replaying=False):
                 'key': '%s|%016x' % (kind, core.h64(xsd + '\0' + doc + str(extra)))}
     kf = core.findings(PROPERTY)
     base_errs = errs_of(s, doc)
+    _pos = [compare.elem_pos(e) for e in s.iter_errors(XMLResource(doc))]
+    root_and_chunk_errors = () in _pos and any(p not in ((), None) for p in _pos)
     base_valid = s.is_valid(doc)
     bj = jsonize(lambda: xmlschema.to_json(doc, schema=s, validation='lax'))
     eres = XMLResource(doc)
@@ -126,7 +128,10 @@ def compare_doc(s, xsd, doc, nchunks, st, label, replaying=False):
             out.append(rec('lazy_raises', 'same errors as eager', type(e).__name__ + ': ' + str(e)[:120], {'thin': thin}))
             continue
         if le != base_errs:
-            out.append(rec('lazy_errors_differ', str(base_errs[:4]), str(le[:4]), {'thin': thin}))
+            r_ = rec('lazy_errors_differ', str(base_errs[:4]), str(le[:4]), {'thin': thin})
+            if sorted(le) == sorted(base_errs) and root_and_chunk_errors:
+                r_['classes'] = ['lazy-root-errors-last']
+            out.append(r_)
         lv = s.is_valid(mk(1))
         if lv != base_valid:
             out.append(rec('lazy_verdict_differs', base_valid, lv, {'thin': thin}))
@@ -149,13 +154,18 @@ def compare_doc(s, xsd, doc, nchunks, st, label, replaying=False):
                 # document-wide constraint errors missing from the lazy *decoding* route
                 cl = []
                 ea, la = bj[1], lj[1]
-                if [e for e in ea if not IDC_REASON.search(e)] == [e for e in la if not IDC_REASON.search(e)]:
-                    cl = ['lazy-decode-idc']
-                else:
-                    ea2 = [e for e in ea if not IDC_REASON.search(e)]
-                    la2 = [e for e in la if not IDC_REASON.search(e) and 'is not an element of the schema' not in e]
-                    if ea2 == la2:
-                        cl = ['lazy-decode-unknown-chunk'] + (['lazy-decode-idc'] if len(ea2) != len(ea) else [])
+                # known divergences of the lazy DECODING route compose: strip what each of them explains and see
+                # whether the rest agrees (as multisets, then in order)
+                ea2 = [e for e in ea if not IDC_REASON.search(e)]
+                la2 = [e for e in la if not IDC_REASON.search(e)]
+                la3 = [e for e in la2 if 'is not an element of the schema' not in e]
+                if sorted(ea2) == sorted(la3):
+                    if len(ea2) != len(ea) or len(la2) != len(la):
+                        cl.append('lazy-decode-idc')
+                    if len(la3) != len(la2):
+                        cl.append('lazy-decode-unknown-chunk')
+                    if ea2 != la3:
+                        cl.append('lazy-decode-error-order')
                 r_ = rec('lazy_decode_errors_differ', str(bj[1][:4]), str(lj[1][:4]), {'thin': thin})
                 r_['classes'] = cl
                 out.append(r_)
@@ -180,6 +190,10 @@ def compare_doc(s, xsd, doc, nchunks, st, label, replaying=False):
             try:
                 d_errs = errs_of(s, mk(depth))
                 st.cls('lazy%d_errors_%s' % (depth, 'same' if d_errs == base_errs else 'differ'))
+                if not base_errs:
+                    st.cls('lazy%d_valid_document_%s' % (depth, 'valid' if not d_errs else 'REPORTED_INVALID'))
+                elif not d_errs:
+                    st.cls('lazy%d_invalid_document_REPORTED_VALID' % depth)
             except Exception as e:
                 st.cls('lazy%d_raises_%s' % (depth, type(e).__name__))
     return out
@@ -217,10 +231,13 @@ def run_shard(desc):
                     fl = []
                     for _ in range(rnd.choice([1, 1, 2, 3])):
                         f = rnd.choice(fs)
-                        if all(f[1] != c[1] and f[1][:len(c[1])] != c[1] and c[1][:len(f[1])] != f[1] for c in fl):
+                        if all(f[1] != c[1] for c in fl):
                             fl.append(f)
-                    for f in sorted(fl, key=lambda f: f[1], reverse=True):
-                        tree = dg.apply_fault(tree, f)
+                    for f in sorted(fl, key=lambda f: (len(f[1]), f[1]), reverse=True):
+                        try:
+                            tree = dg.apply_fault(tree, f)
+                        except (IndexError, KeyError):
+                            pass
                     label = '+'.join(f[0] for f in fl)
             doc = dg.ser(tree, default_ns=rnd.random() < .3)
             st_.sample({'generator': 'docgen', 'label': label, 'doc': doc[:300]}, cap=2)
